@@ -177,6 +177,28 @@ def scan_c02(index, registry):
             "secs": 0.0, "model": {"calls": sorted(fr.calls)[:20]}}]
 
 
+OR = "pybads.bads.optimize_result.OptimizeResult"
+P_OR = "pybads/bads/optimize_result.py"
+MUT["C19"] = [
+    dict(id="c19-wrong-yval", what="recorded observed value is not the incumbent's observation", path=P_BADS, functions=[B + ".optimize"],
+         old="                    \"yval\", float(self.yval), poll_iteration", new="                    \"yval\", float(self.yval) + 1.0, poll_iteration", expect="c19"),
+    dict(id="c19-func-count-ahead", what="recorded func_count runs ahead of the real count", path=P_BADS, functions=[B + ".optimize"],
+         old="                    \"func_count\",\n                    self.function_logger.func_count,", new="                    \"func_count\",\n                    self.function_logger.func_count + 1,", expect="c19_func_count"),
+    dict(id="c19-x-not-image", what="recorded x computed from another point", path=P_BADS, functions=[B + ".optimize"],
+         old="                    self.var_transf.inverse_transf(self.u.flatten()),\n                    poll_iteration,", new="                    self.var_transf.inverse_transf(self.u_best.flatten() + self.mesh_size),\n                    poll_iteration,", expect="c19_recorded_x"),
+    dict(id="c19-result-count", what="result func_count taken from the number of logged points", path=P_OR, functions=[OR + ".set_attributes"],
+         old="        self[\"func_count\"] = bads.function_logger.func_count", new="        self[\"func_count\"] = bads.function_logger.Xn + 1", expect="counts"),
+    dict(id="c19-budget-check-after-record", what="budget test moved after the history record", path=P_BADS, functions=[B + ".optimize"],
+         old="            msg = \"\"\n            # Check termination conditions\n            if (\n                self.function_logger.func_count\n                >= self.options[\"max_fun_evals\"]\n            ):\n                is_finished = True\n                # exit_flag = 0\n                msg = \"Optimization terminated: reached maximum number of function evaluations options['max_fun_evals'].\"\n",
+         new="            msg = \"\"\n", expect="optimize",
+         extra=[("            # Re-evaluate all noisy estimates at the end of the iteration\n", "            if self.function_logger.func_count >= self.options[\"max_fun_evals\"]:\n                is_finished = True\n                msg = \"Optimization terminated: reached maximum number of function evaluations options['max_fun_evals'].\"\n                self.optim_state[\"termination_msg\"] = msg\n            # Re-evaluate all noisy estimates at the end of the iteration\n")]),
+]
+
+
+def scan_c19(index, registry):
+    return scans.deepcopy_on_store(index, registry)
+
+
 def scan_c01(index, registry):
     return scans.target_call_sites(index, registry)
 
@@ -252,6 +274,19 @@ PROPS = {
         explanation="Ghost predicate feasx over points (row-wise deterministic user constraint, T5). The filter returns only feasible rows; the logger requires a feasible point at each "
                     "of its call sites (initial point, noise test, initial design, search, poll, final re-sampling) and hands exactly inverse_transf(x) to the target; invariants: incumbent, "
                     "current point, every logged point, every remaining poll candidate and every history iterate are feasible; the mesh-snapped start is feasible or ValueError.",
+    ),
+    "C19": dict(
+        level="proof",
+        native=[dict(name="history-reference-model", script="history_model.py", args_quick=["--histories", 150], args_thorough=["--histories", 3000], timeout=1800),
+                panel('C19', 8, 40)], replay=replay('C19', 40),
+        functions=[FL + ".__call__", B + "._init_mesh_", B + "._init_optimization_", B + "._re_evaluate_history_", B + "._search_step_", B + "._poll_step_", B + ".optimize",
+                   OR + ".set_attributes", OR + ".__setitem__"],
+        scans=[scan_c19],
+        mutants=MUT["C19"],
+        explanation="Main-loop invariants over the iteration history (typed arrays, IterationHistory.record as an assumed, bounded-checked contract): every recorded iterate is a logged "
+                    "evaluation with the recorded value (ghost witness index chosen from the incumbent invariant), recorded x == inverse_transf(recorded u), recorded func_count "
+                    "non-decreasing and <= the final count, returned x is a recorded iterate (the last one, same value, for deterministic targets; the selected one for noisy targets); "
+                    "OptimizeResult.set_attributes field equalities; unknown result keys rejected; structural deep-copy obligations. Container histories: bounded reference model.",
     ),
     "C04": dict(
         level="proof",
